@@ -278,10 +278,11 @@ def do_backend_json(req, repo):
     resp = {"exc": None, "tb": None, "frame": None}
     try:
         ir = ir_data_utils.IrDataSerializer.from_json(ir_data.EmbossIr, req["ir_json"])
+        # Re-serialise before the back end runs: generate_header annotates the IR.
+        resp["rejson"] = ir_data_utils.IrDataSerializer(ir).to_json()
         header, errors = header_generator.generate_header(ir)
         resp["header"] = header if not errors else None
         resp["errors"] = [[_msg_record(m) for m in g] for g in (errors or [])]
-        resp["rejson"] = ir_data_utils.IrDataSerializer(ir).to_json()
     except BaseException as e:  # pylint:disable=broad-except
         resp["exc"] = type(e).__name__
         resp["tb"] = traceback.format_exc()
